@@ -12,6 +12,7 @@ CONSTANTS
   InitScopeSets = {{}, {"all"}}
   HiddenChoices = {{}}
   ActScopes = {"all", "p1"}
+  RepKinds = {"ReadOk", "ReadRaise", "ReadInvalid", "AssignInvalid", "Activate"}
   MaxNow = 3
 CONSTRAINT TimeBound
 INVARIANT TypeOK
